@@ -1144,6 +1144,32 @@ func main() {
 		}
 		return mid[ekeys[i][1]] < mid[ekeys[j][1]]
 	})
+	// self-edges resolved by hand (object identity is abstracted to the type): selfedges.json lists
+	// mutexes for which "an object's m held while ANOTHER object's m is acquired" was inspected and an
+	// order between the instances exists; they are taken out of lockEdges and recorded in the table.
+	resolved := map[string]string{}
+	if b, err := os.ReadFile("selfedges.json"); err == nil {
+		var l []struct{ Mutex, Justification string }
+		if err := json.Unmarshal(b, &l); err != nil {
+			fmt.Fprintln(os.Stderr, "selfedges.json:", err)
+			os.Exit(1)
+		}
+		for _, e := range l {
+			resolved[e.Mutex] = e.Justification
+		}
+	}
+	var resolvedUsed []string
+	{
+		var kept [][2]string
+		for _, k := range ekeys {
+			if j, ok := resolved[k[0]]; ok && k[0] == k[1] {
+				resolvedUsed = append(resolvedUsed, fmt.Sprintf("%s: %s (%s)", k[0], j, strings.Join(edges[k].Chain, " → ")))
+				continue
+			}
+			kept = append(kept, k)
+		}
+		ekeys = kept
+	}
 	rank, cycle := topoRank(mnames, ekeys)
 
 	// ------------------------------------------------------------ guarded-by rows
@@ -1286,6 +1312,7 @@ func main() {
 		w("  | %d => %d\n", i, rank[i])
 	}
 	w("  | _ => 0\n\n")
+	w("/-- self-edges (same mutex type held and acquired, different objects) resolved by hand in go/lockgraph/selfedges.json and NOT contained in lockEdges -/\ndef resolvedSelfEdges : List String := [%s]\n\n", quoteList(resolvedUsed))
 	w("/-- functions that may return while holding a mutex they acquired (no deferred release) -/\ndef lockLeaks : List String := [%s]\n\n", quoteList(leaks))
 	w("/-- Lock/Unlock calls whose mutex could not be identified as a struct field or package variable -/\ndef unknownLockSites : List String := [%s]\n\n", quoteList(unknown))
 	w("/-- Unlock of a mutex the function itself did not acquire -/\ndef unbalancedUnlocks : List String := [%s]\n\n", quoteList(unbalanced))
@@ -1385,6 +1412,7 @@ func main() {
 	}
 	js["cycle"] = jc
 	js["lock_leaks"] = leaks
+	js["resolved_self_edges"] = resolvedUsed
 	js["unknown_lock_sites"] = unknown
 	js["unbalanced_unlocks"] = unbalanced
 	js["shared_fields"] = shared
